@@ -112,6 +112,8 @@ def run(rep):
                                                              "effect": "no case is executed: red, green, blue keep their indeterminate initial values"})
                 else:
                     rep.incon("S1-switch", key, "uncovered selector values %s but no attained witness" % missing)
+    # S7 gamut: float -> integer channel conversions of xyz -> rgb are in range for every xyz in [0,1]^3
+    gamut(rep, wd)
     # S4 luminance weights
     rep.rule("S4 detail::rgb_to_luminance_fn<double,double,double,G> has affine coefficients 0.30, 0.59, 0.11")
     try:
@@ -256,3 +258,55 @@ def grey_thresholds(rep, fns):
     else:
         rep.violation("S6-grey-threshold", "S6:hsv", wf + " vs " + wb, {"rgb->hsv drops hue below": tf, "hsv->rgb ignores hue below": tb, "witness": wit,
                                                                       "problem": "for this pixel the forward conversion discards the hue but the backward conversion still uses it (as 0): rgb8 -> hsv -> rgb8 does not return the pixel"})
+
+
+def gamut(rep, wd):
+    """S7: xyz -> rgb8/rgb16 (also the second half of lab -> rgb): the value handed to the float -> integer channel conversion lies in
+    the channel range for every x,y,z in [0,1] -- i.e. the converter clamps out-of-gamut colours (constant-propagated witness on refutation)"""
+    rep.rule("S7 xyz -> rgb8/rgb16: for all x,y,z in [0,1] the float handed to the float->integer conversion is inside [0,1] (out-of-gamut colours and "
+             "in-gamut colours that leave the gamut by rounding are clamped); a refutation is confirmed by constant propagation of a corner of the cube")
+    L = [HDR, 'extern "C" {']
+    obl = []
+    for dch, raw in (("rgb8_pixel_t", "std::uint8_t"), ("rgb16_pixel_t", "std::uint16_t")):
+        for col in ("red_t", "green_t", "blue_t"):
+            nm = "w_xyz_%s_%s" % (dch, col)
+            L.append("%s %s(float x, float y, float z){ xyz32f_pixel_t p; get_color(p, xyz_color_space::x_t()) = x; get_color(p, xyz_color_space::y_t()) = y; get_color(p, xyz_color_space::z_t()) = z; %s d; color_convert(p, d); return (%s)get_color(d, %s()); }"
+                     % (raw, nm, dch, raw, col))
+            obl.append((nm, dch, col))
+    L.append("}")
+    src = os.path.join(wd, "c18_gamut.cpp")
+    open(src, "w").write("\n".join(L) + "\n")
+    bc = C.emit_ir(src, src[:-4] + ".bc")
+    dump = C.irdump(bc, src[:-4] + ".json")
+    fns = {f["name"]: f for f in dump["functions"]}
+    import itertools
+    for nm, dch, col in obl:
+        rep.count("obligations:S7")
+        key = "S7:xyz -> %s [%s]" % (dch, col)
+        try:
+            it = NumInterp(fns[nm], {"a0": ("float", 32, 0.0, 1.0), "a1": ("float", 32, 0.0, 1.0), "a2": ("float", 32, 0.0, 1.0)})
+            it.run()
+        except Unsupported as e:
+            rep.fail_analysis("%s: %s" % (key, e))
+            continue
+        bad = [ev for ev in it.final_events() if ev.kind.startswith("fptoint") and ev.status != "proved"]
+        if not bad:
+            rep.ok("S7-gamut", key, "float->int operand in range for every x,y,z in [0,1]")
+            continue
+        wit = None
+        for corner in itertools.product((0.0, 1.0), repeat=3):
+            try:
+                it2 = NumInterp(fns[nm], {"a%d" % i: ("float", 32, corner[i], corner[i]) for i in range(3)})
+                it2.run()
+            except Unsupported:
+                continue
+            b2 = [ev for ev in it2.final_events() if ev.kind.startswith("fptoint") and ev.status == "refuted"]
+            if b2:
+                wit = {"xyz": list(corner), "detail": b2[0].detail}
+                break
+        if wit:
+            rep.violation("S7-gamut", key, "include/boost/gil/extension/toolbox/color_spaces/xyz.hpp",
+                          {"witness": wit, "problem": "a negative (or > 1) component reaches the float -> integer conversion: undefined behaviour, in practice it wraps (rgb8(0,0,42) -> lab -> rgb8 gives red 255)"})
+        else:
+            rep.incon("S7-gamut", key, bad[0].detail)
+    rep.floor("obligations:S7", 6)
